@@ -24,7 +24,8 @@ class TU:
 
     def __init__(self, src, incs, defs, cache_dir=None):
         self.src = src
-        cmd = ['clang++', '-std=c++11', '-fsyntax-only', '-Xclang', '-ast-dump=json'] + \
+        # the library is read as C++11 (its lowest supported dialect); a proof about code that only exists from C++14 on opts in
+        cmd = ['clang++', '-std=c++14' if 'VERIF_STD_CXX14' in defs else '-std=c++11', '-fsyntax-only', '-Xclang', '-ast-dump=json'] + \
               ['-I' + i for i in incs] + ['-D' + d for d in defs] + [src]
         self.cmd = cmd
         key = hashlib.sha256((' '.join(cmd)).encode()).hexdigest()[:16]
